@@ -7,6 +7,7 @@ import (
 	"go/ast"
 	"go/token"
 	"go/types"
+	"sort"
 	"strings"
 
 	"golang.org/x/tools/go/cfg"
@@ -740,11 +741,101 @@ func sqlInfo(q string) (kind string, tokens []string) {
 
 var specSqlExec = []Callee{{pkgSqlitex, "", "Exec"}, {pkgSqlitex, "", "ExecTransient"}, {pkgSqlitex, "", "ExecScript"}}
 
-// sqlCalls lists sqlitex Exec sites with their constant query.
+// sqlExecWrapper recognises a same-package helper that only forwards a statement
+// to sqlitex.Exec: exactly one Exec call whose query, result callback and bound
+// arguments are the helper's own parameters (the last one variadic). It returns
+// the parameter positions of (query, callback, first bound argument) and the
+// inner call.
+func sqlExecWrapper(w *Func) (qi, fi, vi int, inner *ast.CallExpr, ok bool) {
+	if w == nil || w.Decl == nil || w.Body == nil || w.Type.Params == nil {
+		return
+	}
+	calls := w.Calls(specSqlExec...)
+	if len(calls) != 1 || len(calls[0].Call.Args) != 4 || calls[0].Call.Ellipsis == 0 {
+		return
+	}
+	for _, l := range allLits(w) {
+		if len(l.Calls(specSqlExec...)) > 0 {
+			return
+		}
+	}
+	info := w.Info()
+	var params []types.Object
+	for _, fl := range w.Type.Params.List {
+		for _, nm := range fl.Names {
+			params = append(params, info.Defs[nm])
+		}
+	}
+	idx := func(e ast.Expr) int {
+		o := objOf(info, e)
+		for i, p := range params {
+			if p == o && o != nil && len(w.Defs(o)) == 0 {
+				return i
+			}
+		}
+		return -1
+	}
+	inner = calls[0].Call
+	qi, fi, vi = idx(inner.Args[1]), idx(inner.Args[2]), idx(inner.Args[3])
+	if qi < 0 || fi < 0 || vi != len(params)-1 {
+		return 0, 0, 0, nil, false
+	}
+	// every possibly-nil error return is the Exec's own result
+	for _, r := range w.Returns() {
+		e := w.errResultExpr(r.X.(*ast.ReturnStmt))
+		if e == nil {
+			return 0, 0, 0, nil, false
+		}
+		if !w.mayBeNilError(e) {
+			continue
+		}
+		if c, isC := ast.Unparen(w.ResolveDeep(e).E).(*ast.CallExpr); !isC || c != inner {
+			return 0, 0, 0, nil, false
+		}
+	}
+	return qi, fi, vi, inner, true
+}
+
+// sqlCalls lists sqlitex Exec sites with their constant query. A call to a
+// forwarding helper (sqlExecWrapper) counts as the Exec it forwards to: the
+// site's Call is a virtual sqlitex.Exec call with the caller's query, callback
+// and bound arguments (Site.Real is the call in f's body).
 func sqlCalls(f *Func) (sites []Site, queries []string) {
-	for _, s := range f.Calls(specSqlExec...) {
+	info := f.Info()
+	all := f.Calls(specSqlExec...)
+	for _, s := range f.Find(func(n ast.Node) bool { _, ok := n.(*ast.CallExpr); return ok }) {
+		call := s.X.(*ast.CallExpr)
+		fn, ok := calleeObj(info, call).(*types.Func)
+		if !ok || fn.Pkg() == nil || fn.Pkg().Path() != f.Pkg.PkgPath {
+			continue
+		}
+		w := f.Prog.FuncOf(fn.Origin())
+		if w == nil || w == f {
+			continue
+		}
+		qi, fi, vi, inner, ok := sqlExecWrapper(w)
+		if !ok || len(call.Args) <= fi || len(call.Args) <= qi || call.Ellipsis != 0 {
+			continue
+		}
+		virt := &ast.CallExpr{Fun: inner.Fun, Lparen: call.Lparen, Rparen: call.Rparen}
+		virt.Args = append(virt.Args, reroot(info, w, call, inner.Args[0]), call.Args[qi], call.Args[fi])
+		if vi < len(call.Args) {
+			virt.Args = append(virt.Args, call.Args[vi:]...)
+		}
+		ws := s
+		ws.Real, ws.Call, ws.Via = call, virt, w
+		all = append(all, ws)
+	}
+	sort.Slice(all, func(i, j int) bool { return all[i].X.Pos() < all[j].X.Pos() })
+	for _, s := range all {
 		if len(s.Call.Args) < 2 {
 			continue
+		}
+		if s.Via == nil {
+			// the forwarding helper's own Exec is accounted for at its call sites
+			if _, _, _, _, isW := sqlExecWrapper(f); isW {
+				continue
+			}
 		}
 		q, ok := constString(f.Info(), f.ResolveDeep(s.Call.Args[1]).E)
 		if !ok {
